@@ -160,13 +160,16 @@ class Driver:
         self.render()
         self.events.append({"act": "Init", "w": self.w, "fs": h["fs"], "useHash": self.use_hash, "backend": self.backend})
 
-    def observe_cmd(self, args, input=None, sub=None):
+    def observe_cmd(self, args, input=None, sub=None, killenv=None):
         """Run a gwf command; returns result, journal entries, and the standard observation fields."""
         sb = self.sb
         sig0 = self.hashfile_sig()
         dig0 = sb.digest()
         sb.new_calls()
-        r = self.gwf(args, input=input) if sub is None else self.gwf(args, input=input, sub=sub)
+        if killenv:
+            r = sb.gwf_killing_writer(args, killenv)
+        else:
+            r = self.gwf(args, input=input) if sub is None else self.gwf(args, input=input, sub=sub)
         calls = sb.new_calls()
         after, trk_ok, hsh_ok = self.after()
         obs = {
@@ -208,9 +211,14 @@ class Driver:
         elif term["act"] == "Crash":
             faults = [(cmd, nsub + 1, "killparent")]
             sub = True
+        killenv = None
+        if term["act"] == "CrashWrite":
+            fname = "backend-tracked.json" if term["file"] == "trk" else "spec-hashes.json"
+            occ = 1
+            killenv = {"GWFV_KILL_FILE": fname, "GWFV_KILL_OCC": str(occ), "GWFV_KILL_POS": str(self.rng.choice([0, 0, 1, 2, 99]))}
         sb.set_fault(faults)
         self.events.append({"act": "RunBegin", "sel": h["sel"]})
-        r, calls, obs = self.observe_cmd(["run"] + self.names(h["sel"]), sub=sub)
+        r, calls, obs = self.observe_cmd(["run"] + self.names(h["sel"]), sub=sub, killenv=killenv)
         sb.clear_fault()
         rejected = None
         for c in calls:
@@ -226,7 +234,9 @@ class Driver:
             self.jobs.append({"id": jid, "tgt": t, "st": "PD", "hold": [x for x in hold if x > 0], "gone": False})
             self.events.append({"act": "RunSubmit", "t": t, "id": jid, "hold": hold, "kind": p["kind"], "bad": p["bad"]})
         killed = faults and faults[0][2] == "killparent" and rejected is not None
-        if killed:
+        if killenv and obs["exit"] == 137:
+            obs.update(act="CrashWrite", file=term["file"], kill=killenv)
+        elif killed:
             obs.update(act="Crash", after_n=nsub)
         elif rejected is not None:
             obs.update(act="RunReject", t=rejected, fault=faults[0][2] if faults else "")
@@ -370,6 +380,14 @@ class Driver:
         j = self.real_of(h["j"])
         if j is not None and (j["st"] not in want or (a == "Purge" and j["gone"])):
             j = None
+        if j is not None and a == "JobStart":
+            # the simulated scheduler honours the holds it was really given
+            afterok = self.backend != "sge"
+            for k in j["hold"]:
+                st = self.job(k)["st"] if 1 <= k <= len(self.jobs) else "OK"
+                if st in ("PD", "R") or (afterok and st != "OK"):
+                    j = None
+                    break
         ev = dict(h)
         ev["j"] = j["id"] if j else 0
         if j:
@@ -406,7 +424,7 @@ class Driver:
                 while k < len(hist) and hist[k]["act"] == "RunSubmit":
                     self.spec_jobs.append(hist[k]["t"])
                     k += 1
-                if k < len(hist) and hist[k]["act"] in ("RunEnd", "RunReject", "Crash"):
+                if k < len(hist) and hist[k]["act"] in ("RunEnd", "RunReject", "Crash", "CrashWrite"):
                     rest = hist[i + 1 : k + 1]
                     i = k
                 else:
@@ -414,7 +432,7 @@ class Driver:
                     rest = hist[i + 1 : k] + [{"act": "RunEnd"}]
                     i = k - 1
                 self.step_run(h, rest)
-            elif a in ("RunSubmit", "RunEnd", "RunReject", "Crash", "Halt"):
+            elif a in ("RunSubmit", "RunEnd", "RunReject", "Crash", "CrashWrite", "Halt"):
                 pass  # consumed by step_run
             elif a == "QueryFail":
                 self.step_queryfail(h)
